@@ -425,6 +425,27 @@ def work_sheetnames(job):
                 if not W.veq(got, want[a]):
                     acc.violation(dict(kind='sheetname', sheet=name, addr=a, verdict='wrong-element', observed=jsonable(got), expected=jsonable(want[a])),
                                   f'sheet {name!r}: evaluate({a!r}) = {got!r}, expected {want[a]!r}')
+    # the SAME array formula text entered over targets of different shapes on one sheet: each member shows the element of
+    # its own target
+    spec = {'sheets': {'S': {'A1': 1, 'A2': 2, 'A3': 3, 'D1:D3': {'array': '=A1:A3*2'}, 'F1:G4': {'array': '=A1:A3*2'}, 'I1:K1': {'array': '=A1:A3*2'},
+                             'D6:E6': {'array': '=A1:A3*2'}}}, 'active': 'S'}
+    NA = '#N/A'
+    want = {'S!D1': 2, 'S!D2': 4, 'S!D3': 6, 'S!F1': 2, 'S!G1': 2, 'S!F2': 4, 'S!G2': 4, 'S!F3': 6, 'S!G3': 6, 'S!F4': NA, 'S!G4': NA,
+            'S!I1': 2, 'S!J1': 2, 'S!K1': 2, 'S!D6': 2, 'S!E6': 2, 'S!F1:G4': ((2, 2), (4, 4), (6, 6), (NA, NA)), 'S!D1:D3': (2, 4, 6)}
+    for order in (list(want), list(want)[::-1]):
+        m = W.compile_inmem(spec)
+        for a in order:
+            acc.add('evaluations')
+            acc.add('states')
+            try:
+                got = m.evaluate(a)
+            except Exception as exc:
+                acc.violation(dict(kind='sheetname', sheet='same-text', addr=a, verdict='raised', exc=type(exc).__name__),
+                              f'{{=A1:A3*2}} over D1:D3, F1:G4, I1:K1, D6:E6: evaluate({a!r}) raised {type(exc).__name__}')
+                continue
+            if not W.veq(got, want[a]):
+                acc.violation(dict(kind='sheetname', sheet='same-text', addr=a, verdict='wrong-element', observed=jsonable(got), expected=jsonable(want[a])),
+                              f'the same array formula text {{=A1:A3*2}} over D1:D3, F1:G4, I1:K1 and D6:E6: evaluate({a!r}) = {got!r}, expected {want[a]!r}')
     acc.counts['transitions'] = acc.counts.get('evaluations', 0)
     return acc.result()
 
